@@ -8,7 +8,7 @@
  *   <id> img <writer> <pre> <edits> <pad> <ril> <n> { <x> <y> <ncomp> <nt> <il> <comp> <hex> <palhex|-> }*n     writer: df | gr
  *   <id> dfsdseq <nops> { D rank dims.. | N nt | S dim hex|- | T l u f | X dim l u f | R max min | A hex | C }*   DFSD calls as given
  *   <id> pal <n> <hex768>*n                                         DFPaddpal
- *   <id> ann <writer> <n> { <fl|fd|ol|od> <tag> <ref> <hex> }*n     writer: dfan | an
+ *   <id> ann <writer> <decoy> <n> { <fl|fd|ol|od> <tag> <ref> <hex> }*n     writer: dfan | an
  *   <id> raw <views> <ril> <n> { <tag> <ref> <hex|-> }*n            Hputelement of model-made records
  *   <id> legacy <path>                                              checked-in file, every reader
  * Output: "<id> <view> ..." lines (see the rd_* functions); "<id> end" closes a case; "<id> crash <status>" when
@@ -652,6 +652,28 @@ static void rd_img_dfr8(const char *fn)
     }
 }
 
+static void rd_img_dfr8_nodims(const char *fn)
+{
+    /* first the dimensions of all images, then the images one after the other without asking again */
+    int   n = DFR8nimages(fn), nseen = 0;
+    int32 xs[64], ys[64];
+    DFR8restart();
+    for (int k = 0; k < n + 2 && nseen < 64; k++) {
+        int ispal;
+        if (DFR8getdims(fn, &xs[nseen], &ys[nseen], &ispal) == FAIL) break;
+        nseen++;
+    }
+    DFR8restart();
+    for (int k = 0; k < nseen; k++) {
+        long           nb  = (long)xs[k] * ys[k];
+        unsigned char *buf = malloc(nb > 0 ? nb : 1);
+        int            r   = DFR8getimage(fn, buf, xs[k], ys[k], NULL);
+        printf("%s dfr8s %d %d %d", ID, k, (int)xs[k], (int)ys[k]);
+        if (r == FAIL) printf(" fail\n"); else { phex(buf, nb); printf("\n"); }
+        free(buf);
+    }
+}
+
 static void rd_img_dfr8_pad(const char *fn)
 {
     int n = DFR8nimages(fn);
@@ -678,18 +700,31 @@ static void rd_img_dfr8_pad(const char *fn)
 
 static void rd_img_df24(const char *fn, int ril)
 {
-    int n = DF24nimages(fn);
+    int   n = DF24nimages(fn), nseen = 0;
+    int32 xs[64], ys[64];
     printf("%s df24 n %d\n", ID, n);
     DF24restart();
     for (int k = 0; k < n + 2; k++) {
         int32 x, y;
         int   il = 0;
         if (DF24getdims(fn, &x, &y, &il) == FAIL) break;
+        if (nseen < 64) { xs[nseen] = x; ys[nseen] = y; nseen++; }
         long           nb  = (long)x * y * 3;
         unsigned char *buf = malloc(nb > 0 ? nb : 1);
         int            r0  = ril >= 0 ? DF24reqil(ril) : 0;
         int            r   = DF24getimage(fn, buf, x, y);
         printf("%s df24 %d %d %d %d", ID, k, (int)x, (int)y, il);
+        if (r == FAIL || r0 == FAIL) printf(" fail\n"); else { phex(buf, nb); printf("\n"); }
+        free(buf);
+    }
+    /* the same images again by a caller that knows the dimensions and does not ask for them before each read */
+    DF24restart();
+    for (int k = 0; k < nseen; k++) {
+        long           nb  = (long)xs[k] * ys[k] * 3;
+        unsigned char *buf = malloc(nb > 0 ? nb : 1);
+        int            r0  = ril >= 0 ? DF24reqil(ril) : 0;
+        int            r   = DF24getimage(fn, buf, xs[k], ys[k]);
+        printf("%s df24s %d %d %d", ID, k, (int)xs[k], (int)ys[k]);
         if (r == FAIL || r0 == FAIL) printf(" fail\n"); else { phex(buf, nb); printf("\n"); }
         free(buf);
     }
@@ -967,6 +1002,46 @@ static void wr_raw(int n)
     printf("%s w rawclose %d\n", ID, (int)Hclose(f));
 }
 
+/* ------------------------------------------------------------------ another file in between */
+/* The single-file interfaces remember things about the file they used last (annotation directories, the table of
+ * datasets, the raster group read last ...).  Before the case's file is read, a second, different file with objects
+ * under the same tag/refs is written and read through every single-file reader in this process. */
+static void decoy(const char *dir, int nobj, int *tags, int *refs)
+{
+    char fn[700];
+    snprintf(fn, sizeof fn, "%s/decoy-%s.hdf", dir, ID);
+    unlink(fn);
+    unsigned char img[12] = {9, 8, 7, 6, 5, 4, 3, 2, 1, 0, 1, 2}, pal[768], buf[256];
+    int32 d2[2] = {2, 3}, x, y;
+    int16 v[6] = {11, 12, 13, 14, 15, 16}, sc[3] = {1, 2, 3};
+    int   ispal, il, rank;
+    for (int i = 0; i < 768; i++) pal[i] = (unsigned char)(255 - i);
+    /* annotations: a label and a description for every object of the case (other texts), and for one more object */
+    for (int i = 0; i <= nobj; i++) {
+        uint16 t = (uint16)(i < nobj ? tags[i] : 799), r = (uint16)(i < nobj ? refs[i] : 9);
+        char   txt[64];
+        snprintf(txt, sizeof txt, "decoy text %d for %d/%d", i, (int)t, (int)r);
+        DFANputdesc(fn, t, r, txt, (int32)strlen(txt));
+        DFANputlabel(fn, t, r, txt);
+    }
+    DFSDclear(); DFSDsetdims(2, d2); DFSDsetNT(DFNT_INT16); DFSDsetdimscale(2, 3, sc); DFSDadddata(fn, 2, d2, v);
+    DFSDclear();
+    DFR8setpalette(pal); DFR8addimage(fn, img, 3, 2, 0); DFR8setpalette(NULL);
+    DF24setil(0); DF24addimage(fn, img, 2, 2);
+    /* ... and read through every single-file reader */
+    for (int i = 0; i <= nobj; i++) {
+        uint16 t = (uint16)(i < nobj ? tags[i] : 799), r = (uint16)(i < nobj ? refs[i] : 9);
+        DFANgetdesclen(fn, t, r); DFANgetdesc(fn, t, r, (char *)buf, 200);
+        DFANgetlablen(fn, t, r); DFANgetlabel(fn, t, r, (char *)buf, 200);
+    }
+    DFSDrestart(); if (DFSDgetdims(fn, &rank, d2, 2) != FAIL) DFSDgetdata(fn, 2, d2, buf);
+    DFR8restart(); if (DFR8getdims(fn, &x, &y, &ispal) != FAIL) DFR8getimage(fn, buf, x, y, pal);
+    DF24restart(); if (DF24getdims(fn, &x, &y, &il) != FAIL) DF24getimage(fn, buf, x, y);
+    DFPrestart(); DFPgetpal(fn, pal);
+    DFSDrestart(); DFR8restart(); DF24restart(); DFPrestart();
+    unlink(fn);
+}
+
 /* ------------------------------------------------------------------ driver */
 static void sds_readers(const char *fn, const char *views, const char *dir)
 {
@@ -985,7 +1060,7 @@ static void sds_readers(const char *fn, const char *views, const char *dir)
 static void img_readers(const char *fn, const char *views, const char *dir, int ril)
 {
     char tmp[700];
-    if (strchr(views, '8')) { rd_img_dfr8(fn); rd_img_dfr8_pad(fn); }
+    if (strchr(views, '8')) { rd_img_dfr8(fn); rd_img_dfr8_pad(fn); rd_img_dfr8_nodims(fn); }
     if (strchr(views, '2')) rd_img_df24(fn, ril);
     if (strchr(views, 'G')) rd_img_gr(fn, "gr", ril);
     if (strchr(views, 'p')) rd_dfp(fn);
@@ -1012,6 +1087,7 @@ static void run_case(const char *dir)
         PAD       = (int)nextl();
         int   n   = (int)nextl();
         wr_sds(w, n, pre, ed);
+        if ((PAD >> 15) & 1) decoy(dir, 0, NULL, NULL);
         sds_readers(FN, "dsnvg", dir);
         dump_recs(FN);
     }
@@ -1034,6 +1110,7 @@ static void run_case(const char *dir)
             else if (op[0] == 'C') { r = DFSDclear(); }
             printf("%s w seq %d %s %d\n", ID, i, op, r);
         }
+        if (nops & 1) decoy(dir, 0, NULL, NULL);
         sds_readers(FN, "dsnvg", dir);
         dump_recs(FN);
     }
@@ -1045,6 +1122,7 @@ static void run_case(const char *dir)
         int   ril = (int)nextl();
         int   n   = (int)nextl();
         wr_img(w, n, pre, ed);
+        if ((PAD >> 15) & 1) decoy(dir, 0, NULL, NULL);
         img_readers(FN, "82GpVR", dir, ril);
         dump_recs(FN);
     }
@@ -1060,6 +1138,7 @@ static void run_case(const char *dir)
     }
     else if (!strcmp(kind, "ann")) {
         char *w    = next();
+        int   dec  = (int)nextl();       /* 1: another file is written and read in between */
         int   n    = (int)nextl();
         int   save = cur, nobj = 0, tags[64], refs[64];
         for (int k = 0; k < n; k++) {
@@ -1074,6 +1153,7 @@ static void run_case(const char *dir)
         }
         cur = save;
         wr_ann(w, n);
+        if (dec) decoy(dir, nobj, tags, refs);
         rd_ann_dfan(FN, nobj, tags, refs);
         rd_ann_an(FN, nobj, tags, refs);
     }
